@@ -26,6 +26,9 @@ theorem stepW_st (cfg : Cfg) (w : WSt) (ev : Ev) : (stepW cfg w ev).st = step cf
   cases ev with
   | start => rfl
   | timeout => rfl
+  | startSlow => rfl
+  | dialDone k => rfl
+  | dialGiveUp => rfl
   | answer j => simp only; split <;> rfl
   | ret =>
     simp only
@@ -45,6 +48,9 @@ theorem stepW_orphans (cfg : Cfg) (hw : cfg.watchdog = false) (w : WSt) (ev : Ev
   cases ev with
   | start => rfl
   | timeout => rfl
+  | startSlow => rfl
+  | dialDone k => rfl
+  | dialGiveUp => rfl
   | answer j => simp only; split <;> rfl
   | ret =>
     simp only
@@ -97,6 +103,126 @@ theorem C18 (evs : List Ev) :
     ((runW Chf.Gen.ratingClient {} evs).st.conns.length ≤ 1 ∧ tasks Chf.Gen.ratingClient (runW Chf.Gen.ratingClient {} evs) ≤ 1) :=
   ⟨C18_bounded _ cfg_good.1 cfg_quiet.1 evs, C18_bounded _ cfg_good.2 cfg_quiet.2 evs⟩
 
+/-! ### the dial phase
+
+  A peer may accept the connection and take seconds over the TLS handshake or the capabilities exchange.  The code
+  at hand dials synchronously (`syncDial`, regenerated): the request waits for its connection, so the connection
+  belongs to the request from the moment it exists and the deferred Close covers it.  A dial made in a task of its
+  own with a deadline lets the request return first; the connection that the set-up produces afterwards belongs to
+  nobody and is never closed. -/
+
+/-- both client functions of the working tree dial synchronously -/
+theorem cfg_sync_dial : Chf.Gen.abmfClient.syncDial = true ∧ Chf.Gen.ratingClient.syncDial = true := by decide
+
+/-- no connection set-up outlives its request, and while a request is still dialling no connection is open — for
+    every scheduler and history -/
+theorem C18_no_setup_left (cfg : Cfg) (hg : cfg.good = true) (evs : List Ev) :
+    (run cfg {} evs).lateDials = [] ∧ ((run cfg {} evs).dialing.isSome = true → (run cfg {} evs).conns = []) := by
+  have h := reachable_inv cfg hg evs
+  refine ⟨h.lateNone, ?_⟩
+  intro hd
+  cases hk : (run cfg {} evs).dialing with
+  | none => simp [hk] at hd
+  | some k => exact (h.dialExcl k hk).2.2.1
+
+/-- a connection set-up that completes at once is the `start` of the machine without a dial phase -/
+theorem dial_instant (cfg : Cfg) (s : St) (hd : s.dialing = none) (hl : s.lateDials = []) :
+    step cfg (step cfg s .startSlow) (.dialDone s.next) = step cfg s .start := by
+  by_cases hw : s.wedged = true
+  · simp [step, hw, hd, hl]
+  · by_cases hser : cfg.serial = true
+    · by_cases hc : s.cur.isSome = true
+      · simp [step, hw, hc, hd, hl, hser]
+      · by_cases hr : s.returning.isSome = true
+        · simp [step, hw, hc, hr, hd, hl, hser]
+        · by_cases hb : s.blocked > 0
+          · simp [step, hw, hc, hr, hb, hd, hl, hser]
+          · simp [step, hw, hc, hr, hb, hd, hser]
+    · by_cases hb : s.blocked > 0
+      · simp [step, hw, hb, hd, hl, hser]
+      · simp [step, hw, hb, hd, hser]
+
+/-- a request that gives up on its dial and returns; the set-up completes afterwards -/
+def abandonedDial (k : Nat) : List Ev := [.startSlow, .dialGiveUp, .ret, .dialDone k]
+
+def abandonedRun : Nat → Nat → List Ev
+  | _, 0 => []
+  | k, n + 1 => abandonedDial k ++ abandonedRun (k + 1) n
+
+structure Idle (s : St) : Prop where
+  cur : s.cur = none
+  returning : s.returning = none
+  dialing : s.dialing = none
+  wedged : s.wedged = false
+  blocked : s.blocked = 0
+  late : s.lateDials = []
+  connsOld : ∀ j ∈ s.conns, j < s.next
+
+theorem abandonedDial_leaks (cfg : Cfg) (ha : cfg.syncDial = false) (s : St) (hi : Idle s) :
+    Idle (run cfg s (abandonedDial s.next)) ∧ (run cfg s (abandonedDial s.next)).next = s.next + 1 ∧
+    (run cfg s (abandonedDial s.next)).conns.length = s.conns.length + 1 := by
+  obtain ⟨h1, h2, h3, h4, h5, h6, h7⟩ := hi
+  have hkeep : s.conns.filter (· != s.next) = s.conns := by
+    rw [List.filter_eq_self]
+    intro j hj
+    have := h7 j hj
+    simp only [bne_iff_ne, ne_eq]
+    omega
+  have hconns : (if cfg.closesConn = true then s.conns.filter (· != s.next) else s.conns) = s.conns := by
+    split <;> simp [hkeep]
+  simp only [run, abandonedDial, List.foldl_cons, List.foldl_nil, step, h1, h2, h3, h4, h5, h6, ha,
+    Option.isSome_none, Bool.or_self, Bool.false_eq_true, if_false, Nat.lt_irrefl, gt_iff_lt, hconns,
+    List.contains_cons, BEq.rfl, Bool.true_or, if_true, List.erase_cons_head, reduceCtorEq, Bool.and_false]
+  refine ⟨⟨?_, ?_, ?_, ?_, ?_, ?_, ?_⟩, ?_, ?_⟩
+  · rfl
+  · rfl
+  · rfl
+  · rfl
+  · rfl
+  · rfl
+  · intro j hj
+    show j < s.next + 1
+    have hj' : j = s.next ∨ j ∈ s.conns := by simpa using hj
+    rcases hj' with rfl | hj'
+    · omega
+    · have := h7 j hj'; omega
+  · trivial
+  · show (s.next :: s.conns).length = s.conns.length + 1
+    simp
+
+theorem abandonedRun_leaks (cfg : Cfg) (ha : cfg.syncDial = false) (n : Nat) :
+    ∀ s, Idle s → (run cfg s (abandonedRun s.next n)).conns.length = s.conns.length + n := by
+  induction n with
+  | zero => intro s _; rfl
+  | succ m ih =>
+    intro s hi
+    obtain ⟨hi', hn, hl⟩ := abandonedDial_leaks cfg ha s hi
+    have e : run cfg s (abandonedRun s.next (m + 1))
+        = run cfg (run cfg s (abandonedDial s.next)) (abandonedRun (run cfg s (abandonedDial s.next)).next m) := by
+      rw [hn]
+      simp only [abandonedRun, run, List.foldl_append]
+    rw [e, ih _ hi', hl]
+    omega
+
+/-- with a dial that the request can give up on, n requests to a peer that is slow to shake hands leave n
+    connections behind — and n reader tasks: no bound -/
+theorem C18_async_dial_leak (cfg : Cfg) (ha : cfg.syncDial = false) (n : Nat) :
+    (run cfg {} (abandonedRun 1 n)).conns.length = n ∧ n ≤ tasks cfg ⟨run cfg {} (abandonedRun 1 n), [], 0⟩ := by
+  have h := abandonedRun_leaks cfg ha n {} ⟨rfl, rfl, rfl, rfl, rfl, rfl, by simp⟩
+  have h' : (run cfg {} (abandonedRun 1 n)).conns.length = n := by simpa using h
+  refine ⟨h', ?_⟩
+  unfold tasks
+  simp only [h']
+  split <;> omega
+
+/-- the machine of a client that dials in a task of its own and stops waiting after 2 s -/
+def asyncDial : Cfg := { Chf.Gen.ratingClient with syncDial := false, dialDeadlineMs := 2000 }
+example : (run asyncDial {} [.startSlow, .dialGiveUp, .ret, .dialDone 1]).conns = [1] := by decide
+example : (run asyncDial {} (abandonedRun 1 3)).conns.length = 3 := by decide
+/-- non-vacuity: the same peer against the working tree's machine — the request waits, the connection is its own -/
+example : (run Chf.Gen.ratingClient {} [.startSlow, .dialGiveUp, .dialDone 1, .answer 1, .ret]).conns = []
+    ∧ (run Chf.Gen.ratingClient {} [.startSlow, .dialGiveUp, .dialDone 1, .answer 1, .ret]).log = [.own 1] := by decide
+
 /-! ### the watchdog leak (the code before the `EnableWatchdog` repair) -/
 
 /-- one request that times out and returns -/
@@ -110,19 +236,20 @@ structure Quiet (w : WSt) : Prop where
   buf : w.st.buf = []
   conns : w.st.conns = []
   armed : w.armed = []
+  dialing : w.st.dialing = none
 
 theorem timedOut_leaks (cfg : Cfg) (hg : cfg.good = true) (hw : cfg.watchdog = true) (w : WSt) (hq : Quiet w) :
     Quiet (runW cfg w timedOut) ∧ (runW cfg w timedOut).orphans = w.orphans + 1 := by
-  have hc : cfg.closesConn = true := by simp [Cfg.good] at hg; exact hg.1.1.1.1.1
+  have hc : cfg.closesConn = true := by simp [Cfg.good] at hg; exact hg.1.1.1.1.1.1
   obtain ⟨st, armed, orphans⟩ := w
-  obtain ⟨h1, h2, h3, h4, h5, h6, h7⟩ := hq
-  simp only at h1 h2 h3 h4 h5 h6 h7
+  obtain ⟨h1, h2, h3, h4, h5, h6, h7, h8⟩ := hq
+  simp only at h1 h2 h3 h4 h5 h6 h7 h8
   subst h7
-  simp only [runW, timedOut, List.foldl_cons, List.foldl_nil, stepW, step, h1, h2, h3, h4, h5, h6, hc, hw,
+  simp only [runW, timedOut, List.foldl_cons, List.foldl_nil, stepW, step, h1, h2, h3, h4, h5, h6, h8, hc, hw,
     Option.isSome_none, Bool.or_self, Bool.false_eq_true, if_false, Nat.lt_irrefl, gt_iff_lt, drain, takeMsg,
     List.find?_nil, if_true, List.filter_cons, List.filter_nil, bne_self_eq_false, List.contains_nil,
     Bool.not_false, Bool.and_self, Bool.and_false]
-  refine ⟨⟨?_, ?_, ?_, ?_, ?_, ?_, ?_⟩, ?_⟩ <;> first | rfl | trivial
+  refine ⟨⟨?_, ?_, ?_, ?_, ?_, ?_, ?_, ?_⟩, ?_⟩ <;> first | rfl | trivial | assumption
 
 /-- with the watchdog enabled, n requests that time out leave n watchdog tasks behind: no bound -/
 theorem C18_watchdog_leak (cfg : Cfg) (hg : cfg.good = true) (hw : cfg.watchdog = true) (n : Nat) :
@@ -144,7 +271,7 @@ theorem C18_watchdog_leak (cfg : Cfg) (hg : cfg.good = true) (hw : cfg.watchdog 
       rw [e]
       refine ⟨h2.1, ?_⟩
       rw [h2.2, h1.2]; omega
-  have h := key n {} ⟨rfl, rfl, rfl, rfl, rfl, rfl, rfl⟩
+  have h := key n {} ⟨rfl, rfl, rfl, rfl, rfl, rfl, rfl, rfl⟩
   refine ⟨by simpa using h.2, ?_⟩
   unfold tasks
   rw [h.1.conns, h.1.blocked, h.2]
